@@ -1061,7 +1061,9 @@ func runDistrCase(ta *TestApp, seed uint64, idx int, rep *Report, profile string
 		rep.Count("faults_mode.cyclic_graph_not_compared")
 	}
 	c14cls := cls
-	if c14cls == "" && e.sourceListedTwice(cfg) {
+	// K3 / K5 (routing of a share to MAIN, missing events) are the same with and without failures: for the
+	// twin comparison the class that matters in such a configuration is a source shared by several sub-distributors
+	if (c14cls == "" || c14cls == ".K3" || c14cls == ".K5") && e.sourceListedTwice(cfg) {
 		c14cls = ".K11"
 	}
 	if faultsMode && !main.panicked && !cyclic {
